@@ -25,6 +25,29 @@ func singleStore(a *ssa.Alloc) ssa.Value {
 				return nil // the address itself is stored somewhere: may be written through it
 			}
 		case *ssa.UnOp, *ssa.FieldAddr, *ssa.IndexAddr, *ssa.DebugRef, *ssa.Slice:
+		case *ssa.MakeClosure:
+			// captured by a closure: fine as long as the closure never assigns the captured variable itself
+			fnc, _ := x.Fn.(*ssa.Function)
+			if fnc == nil {
+				return nil
+			}
+			for i, b := range x.Bindings {
+				if b != ssa.Value(a) || i >= len(fnc.FreeVars) {
+					continue
+				}
+				fv := fnc.FreeVars[i]
+				for _, fr := range *fv.Referrers() {
+					switch y := fr.(type) {
+					case *ssa.Store:
+						if y.Addr == ssa.Value(fv) {
+							return nil
+						}
+					case *ssa.UnOp, *ssa.FieldAddr, *ssa.IndexAddr, *ssa.DebugRef:
+					default:
+						return nil
+					}
+				}
+			}
 		case ssa.CallInstruction:
 			// receiver of a method call: treated as read-only (accessor idiom); any other argument position may be written through
 			cc := x.Common()
